@@ -280,8 +280,8 @@ def pluginInit (env : Env) (sch : TypedSchema) (args : List (Str × Str)) : Opti
       let schema := if anon then sch.args.map (fun a => if a.name == "threshold" then { a with name := "threshold_anon" } else a) else sch.args
       argParse schema env.fs mt a2
   else if sch.plugin == "kill_by_swap_usage" then
-    -- `auto swapTotal = 0;` is an int
-    argParse sch.args env.fs (wrap32 ((env.swapAt (lookupArg args "meminfo_location")).getD 0)) (eraseArg args "meminfo_location")
+    -- `int64_t swapTotal` (an `int` until /repo 2945329, repaired under C09)
+    argParse sch.args env.fs ((env.swapAt (lookupArg args "meminfo_location")).getD 0) (eraseArg args "meminfo_location")
   else
     match argParse sch.args env.fs 0 args with
     | none => none
@@ -528,7 +528,7 @@ def isExtern (d : Declared) (k : Str) : Bool := d.extern.any (fun n => n.toList 
 /-- the total a `sizepct` argument of this plugin is a percentage of -/
 def totalFor (env : Env) (sch : TypedSchema) (args : List (Str × Str)) : Int :=
   if sch.plugin == "memory_above" then (env.memAt (lookupArg args "meminfo_location")).getD 0
-  else if sch.plugin == "kill_by_swap_usage" then wrap32 ((env.swapAt (lookupArg args "meminfo_location")).getD 0) else 0
+  else if sch.plugin == "kill_by_swap_usage" then (env.swapAt (lookupArg args "meminfo_location")).getD 0 else 0
 
 /-- the valid reading of one argument the parser reads: `none` if undeclared or without a valid reading -/
 def argReading (env : Env) (sch : TypedSchema) (d : Declared) (args : List (Str × Str)) (kv : Str × Str) : Option Val :=
